@@ -285,3 +285,70 @@ def called_attr(fn, call, node=None):
         if len(attrs) == 1 and None not in attrs:
             return attrs.pop()
     return None
+
+
+def check_truthiness_protocol(ctx):
+    """`if not field:`, `while schema:`, `x = a or b` on schema / field / configuration objects mean "is there one" -- the classes
+    define neither __bool__ nor __len__, so an object is always true.  A class of those families that gains __len__ / __bool__
+    makes every such test depend on the object's *content* (an empty schema counts as missing).  Reported where a truthiness test
+    in the package is applied to a value that can be an instance of the class."""
+    an, model = ctx.an, ctx.model
+    fams = [model.cls(n) for n in ("BaseField", "Config") if model.has_cls(n)]
+    changed = [c for c in model.classes.values() if c.node is not None and any(c.is_subclass_of(f) for f in fams)
+               and any(m in c.methods for m in ("__len__", "__bool__"))
+               and not (c.is_subclass_of("list") or c.is_subclass_of("dict") or c.is_subclass_of("set"))]
+    if not changed:
+        ctx.ob("protocol.truthiness-stable", fams[0], "no __len__/__bool__ on schema, field or configuration classes", True,
+               "objects of these classes are always true: truthiness tests mean 'is there one'", nontrivial=False)
+        return
+    names = {c.name for c in changed} | {s.name for c in changed for s in c.subclasses()}
+    hits = []
+    for fn in an.fns():
+        ft = an.ft(fn)
+        for n in an.cfg(fn).nodes:
+            if n.kind != "test" or n.ast is None:
+                continue
+            e = n.ast
+            if isinstance(e, ast.UnaryOp) and isinstance(e.op, ast.Not):
+                e = e.operand
+            if not isinstance(e, (ast.Name, ast.Attribute, ast.Call, ast.Subscript)):
+                continue
+            t = ft.type_of(e, ft.env_in.get(n) or {})
+            # the static type is the class, one of its subclasses, or a base class of it (a value declared BaseField can be a Schema)
+            if t != "ANY" and t and any(isinstance(a, str) and (a in names or (a in model.classes and any(c.is_subclass_of(model.classes[a]) for c in changed)))
+                                        for a in t):
+                hits.append((fn, n))
+    for c in changed:
+        mine = [(f, n) for f, n in hits]
+        ctx.ob("protocol.truthiness-stable", c, "%s defines %s" % (c.name, [m for m in ("__len__", "__bool__") if m in c.methods][0]), not mine,
+               "no truthiness test is applied to such an object" if not mine else
+               "%s objects can now be false (an empty one is): %d truthiness test(s) in the package that meant 'is there one' -- first at %s in %s -- "
+               "take an empty object for a missing one" % (c.name, len(mine), mine[0][0].site(mine[0][1].ast), mine[0][0].qualname))
+
+
+def check_own_tables(ctx):
+    """A configuration's value table, default marks and run-time field table are its own: Config.__init__ binds each of them to a
+    new, empty container -- a table taken from the parent (or from anywhere else) makes sibling configurations write into one
+    another (a run-time key of a dynamic section shadows a declared sensitive field of its neighbour)."""
+    an, model = ctx.an, ctx.model
+    init = model.method("Config", "__init__")
+    n = 0
+    for nd in an.cfg(init).nodes:
+        if nd.kind == "assign" and isinstance(nd.ast, (ast.Assign, ast.AnnAssign)):
+            tgts = nd.ast.targets if isinstance(nd.ast, ast.Assign) else [nd.ast.target]
+            for t in tgts:
+                if isinstance(t, ast.Attribute) and isinstance(t.value, ast.Name) and t.value.id == init.self_name and t.attr in ("_data", "_fields", "_default_value_keys") \
+                        and nd.ast.value is not None:
+                    n += 1
+                    bad = None
+                    for k, pl in value_sources(init, nd.ast.value, nd):
+                        fresh = k == "expr" and ((isinstance(pl, ast.Call) and not pl.args and not pl.keywords and isinstance(pl.func, ast.Name)
+                                                  and pl.func.id in ("dict", "set", "OrderedDict", "list")) or
+                                                 (isinstance(pl, (ast.Dict, ast.Set, ast.List)) and not getattr(pl, "keys", None) and not getattr(pl, "elts", None)))
+                        if not fresh:
+                            bad = ast.unparse(pl)[:50] if isinstance(pl, ast.AST) else str(pl)
+                    ctx.ob("config.own-tables", init, nd.ast, bad is None,
+                           "self.%s is a new empty container" % t.attr if bad is None else
+                           "Config.__init__ can bind self.%s to %s: the table is shared with another configuration, what one of them stores "
+                           "(a run-time field, a value, a default mark) shows in the other" % (t.attr, bad), node=nd)
+    ctx.need(n >= 3, "Config.__init__ no longer creates its tables")
